@@ -114,6 +114,22 @@ theorem relation_exact (T : Tree) (hsu : SibUnique T) (hu : Rel.NonLeafUnique T)
       ∀ a n, nodeAt a (.node 0 T.name [] cs) = some n → Rel.ChildSpec rows n :=
   Rel.relToTree_tree T hsu hu hne rows hperm hrows allowDup
 
+/-- The same with a row `(root, no parent, cells)` anywhere among the rows (the documented way to
+    give the root attributes): accepted, same root, same edges, and the root carries that row's
+    non-null cells. -/
+theorem relation_exact_rootrow (T : Tree) (hsu : SibUnique T) (hu : Rel.NonLeafUnique T)
+    (hne : ∀ b n, nodeAt b T = some n → n.name ≠ []) (cells : Attrs) (rows : List Rel.Row)
+    (hperm : rows.Perm (⟨T.name, none, cells⟩ :: Rel.edges T)) (allowDup : Bool) :
+    Rel.rootNames rows = [T.name] ∧
+    ∃ cs, Rel.relToTree allowDup rows = .ok (.node 0 T.name (cells.filter fun kv => kv.2 ≠ .null) cs) ∧
+      (Rel.edges (.node 0 T.name [] cs)).Perm ((Rel.edges T).map Rel.norm) ∧
+      ∀ a n, nodeAt a (.node 0 T.name (cells.filter fun kv => kv.2 ≠ .null) cs) = some n →
+        Rel.ChildSpec rows n :=
+  Rel.relToTree_tree_rootrow T hsu hu hne cells rows hperm allowDup
+
+example : Rel.relToTree false [⟨['b'], some ['a'], []⟩, ⟨['a'], none, [(['v'], .int 9), (['w'], .null)]⟩] =
+    .ok (.node 0 ['a'] [(['v'], .int 9)] [.node 0 ['b'] [] []]) := by rfl
+
 /-- Whatever the input: if the constructor returns a tree, the children of every node are the
     rows naming it as parent, in row order, with the row's non-null cells as attributes. -/
 theorem relation_children_in_row_order (allowDup : Bool) (rows : List Rel.Row) (t : Tree)
